@@ -20,7 +20,7 @@ def run(ck):
                 ev = [("seqon", 0)] + ev[:3] + [("seqon", 1)] + ev[3:]
             cases.append(ev)
         return cases
-    flowgen.run_flow_check(ck, "Properties_C05.v", "C05", make, "corr_nodeflow_seq")
+    flowgen.run_flow_check(ck, "Properties_C05.v", "C05", make, "corr_nodeflow_seq", lock_fact=("call:bidib_node_state_get_and_incr_send_seqnum", "call:bidib_node_try_send", "call:bidib_buffer_message", "node_state_table"))
     ck.coverage["rule"] = "seeded single-submitter histories incl. deferral by budget/stall, release by the receiver thread, the 255->1 wrap, table reset, numbering off/on; non-trivial = stall/deferral/release present"
     return vlib.finish_with_broken(ck, trusted=vlib.TRUSTED_COMMON)
 
